@@ -424,3 +424,5 @@ def run(ctx):
     boundaries.check_writes(ctx, 'C08.RW', 'C08')
     from . import C14
     C14.r7_no_loss(ctx, 'C08.R8', C14.REFUSAL_SLOT + C14.ACK_SLOTS, floor=3)
+    from .. import boundaries as _b
+    _b.check_predicates(ctx, 'C08.RP', 'C08')
